@@ -92,7 +92,7 @@ func names(maxLen int) [][]byte {
 // ---------------------------------------------------------------------------
 // Part A: the matcher itself
 
-var tokens = []string{"a", "b", ".", `\.`, "^", "$", "|", "?", "*", "+", "(", ")"}
+var tokens = []string{"a", "b", ".", `\.`, "^", "$", "|", "?", "*", "+", "(", ")", "(?i)", "(?i:"}
 
 func regexes(maxTok int, onlyAnchored bool) []string {
 	seen := map[string]bool{}
